@@ -100,7 +100,7 @@ def main():
     discharged = obligations if ctx.proof_ok else 0
     # 3b. T3: fingerprints of the hand-modelled code (tools/lib/fingerprints.py)
     record_reach = os.environ.get('VERIF_RECORD_REACH') == '1'
-    fp = {'changed': [], 'gone': [], 'recorded': False}
+    fp = {'changed': [], 'gone': [], 'decls': [], 'recorded': False}
     trace_dir = None
     try:
         if record_reach:
@@ -108,7 +108,7 @@ def main():
             os.environ.update(env)
         else:
             fp = FP.compare(pid, C.REPO)
-            if fp['changed'] or fp['gone']:
+            if fp['changed'] or fp['gone'] or fp.get('decls'):
                 ctx.escalate = True
                 if fp['changed']:
                     env, trace_dir = FP.arm(fp['changed'], C.REPO)
@@ -203,6 +203,7 @@ def main():
         known_findings_seen=sorted(seen_known), no_longer_checks=broken, make_s=round(dt_make, 1),
         fingerprints=dict(recorded=fp.get('recorded', False),
                           changed=[f"{c['file']}::{c['qualname']}" for c in fp['changed']], gone=fp['gone'],
+                          declarations_changed=fp.get('decls', []),
                           escalated=ctx.escalate, uncovered=uncovered)))
     C.write_evidence(pid, tier, seed, getattr(mod, 'LEVEL', 'proof'), cov,
                      getattr(mod, 'ASSUMPTIONS', []), time.time() - t0, violations)
